@@ -25,7 +25,15 @@
 (*          [name, cid] -- any names (num = -1: a name whose stem is not a *)
 (*          number), any order, entries dropped / added / repeated         *)
 (* dir      the restored directory:                                        *)
-(*            imm    partial function name -> cid : <db>/immutable/*       *)
+(*            imm    partial function name -> cid : the REGULAR files      *)
+(*                   <db>/immutable/<name>                                 *)
+(*            nonreg partial function name -> [k, cid] (names not in imm): *)
+(*                   what else sits under an immutable file name:          *)
+(*                   k = "dir"      a directory                            *)
+(*                   k = "link"     a symbolic link to a regular file of   *)
+(*                                  content cid (a copy elsewhere, another *)
+(*                                  immutable of the directory, anything)  *)
+(*                   k = "dangling" a symbolic link to nothing (cid = -1)  *)
 (*            decoy  "none" | "first" | "after": a second directory        *)
 (*                   <db>/<x>/immutable holding a copy of the certified    *)
 (*                   files, <x> before / after "immutable" in readdir order*)
@@ -37,7 +45,10 @@ CONSTANTS
                              \* TRUE : proposed fix, per-name comparison also on the success path
     ListNamesCanonical,      \* FALSE: code as it is; TRUE: proposed fix, only canonical names
                              \*        <number:05>.<chunk|primary|secondary> of the served list are kept
-    FindPrefersDirectChild   \* see DbDigest.tla (C12)
+    FindPrefersDirectChild,  \* see DbDigest.tla (C12)
+    NonRegularRefused        \* FALSE: code as it is: a name under which something other than a regular
+                             \*        file sits is neither hashed (is_file) nor missing (exists)
+                             \* TRUE : proposed fix, such a name of the range is reported as non verifiable
 
 -----------------------------------------------------------------------------
 (* certified side *)
@@ -76,16 +87,23 @@ DownloadVerifyDigests(served, N, signedRoot) ==
 ReadDir(dir, cert) ==
     IF FindPrefersDirectChild \/ dir.decoy # "first" THEN dir.imm ELSE cert
 
+(* Path::exists follows links: true for a directory and for a link to something *)
+Exists(e) == e.k \in {"dir", "link"}
+
 (* verify_cardano_database(.., range, allow_missing, db_dir, verified_digests) *)
 VerifyDb(vd, dir, cert, lo, hi, allowMissing) ==
-    LET missing  == IF allowMissing THEN {}
-                    ELSE {n \in Trios(lo, hi) : n \notin DOMAIN dir.imm}   \* list_missing_immutable_files: <db>/immutable
-        rd       == ReadDir(dir, cert)
+    LET missing  == IF allowMissing THEN {}                                 \* list_missing_immutable_files:
+                    ELSE {n \in Trios(lo, hi) :                             \* <db>/immutable/<name>.exists()
+                             /\ n \notin DOMAIN dir.imm
+                             /\ ~(n \in DOMAIN dir.nonreg /\ Exists(dir.nonreg[n]))}
+        rd       == ReadDir(dir, cert)       \* is_immutable: entry.file_type().is_file(), links not followed
         inRange  == {n \in DOMAIN rd : lo <= n.num /\ n.num <= hi}
         proofOk  == \A n \in inRange : rd[n] \in Range(vd.leaves)          \* MKTree::compute_proof: membership
         perName  == \A n \in inRange : n \in DOMAIN vd.digests /\ vd.digests[n] = rd[n]
+        unhashed == {n \in DOMAIN dir.nonreg : lo <= n.num /\ n.num <= hi}  \* something is there, not hashed
     IN  /\ proofOk /\ missing = {}
         /\ PerNameOnSuccess => perName
+        /\ NonRegularRefused => unhashed = {}
 
 (* the whole client flow: digests, verification, message recomputed from the proof's root *)
 AcceptImpl(served, dir, cert, N, r, allowMissing) ==
@@ -97,13 +115,22 @@ AcceptImpl(served, dir, cert, N, r, allowMissing) ==
 -----------------------------------------------------------------------------
 (* The property (C10), independent of the code.                             *)
 
+(* The files of the directory as a reader gets them: the regular files and, through a   *)
+(* link, the regular file it leads to.  (Whether a link may stand for the file is not    *)
+(* decided by the property; reading it this way never asks more than the other way.)     *)
+(* A directory or a dangling link under a name is no file: the name is absent.           *)
+Files(dir) ==
+    [n \in DOMAIN dir.imm \cup {m \in DOMAIN dir.nonreg : dir.nonreg[m].k = "link"} |->
+        IF n \in DOMAIN dir.imm THEN dir.imm[n] ELSE dir.nonreg[n].cid]
+
 (* each immutable file in the requested range is present (unless the caller allowed  *)
 (* gaps) and its content hashes to the digest the certified list assigns to that     *)
 (* very file name                                                                    *)
 AcceptRule(dir, cert, lo, hi, allowMissing) ==
-    /\ \A n \in Trios(lo, hi) : n \in DOMAIN dir.imm \/ allowMissing
-    /\ \A n \in DOMAIN dir.imm :
-          (lo <= n.num /\ n.num <= hi) => (n \in DOMAIN cert /\ dir.imm[n] = cert[n])
+    LET f == Files(dir) IN
+    /\ \A n \in Trios(lo, hi) : n \in DOMAIN f \/ allowMissing
+    /\ \A n \in DOMAIN f :
+          (lo <= n.num /\ n.num <= hi) => (n \in DOMAIN cert /\ f[n] = cert[n])
 
 (* the digest list itself reproduces the Merkle root signed in the certificate: the root   *)
 (* over its entries numbered up to the beacon, in file name order -- either over all of    *)
@@ -123,4 +150,12 @@ Reproduces(served, N, signedRoot) ==
 OnlyMisplaced(dir, cert, lo, hi, allowMissing) ==
     /\ \A n \in Trios(lo, hi) : n \in DOMAIN dir.imm \/ allowMissing
     /\ \A n \in DOMAIN dir.imm : (lo <= n.num /\ n.num <= hi) => dir.imm[n] \in Range(cert)
+
+(* excuse of the known findings about entries that are no regular files: leaving those   *)
+(* names aside (as gaps) the directory satisfies the rule                                *)
+OnlyNonRegular(dir, cert, lo, hi, allowMissing) ==
+    /\ \E n \in DOMAIN dir.nonreg : lo <= n.num /\ n.num <= hi
+    /\ \A n \in Trios(lo, hi) : n \in DOMAIN dir.imm \cup DOMAIN dir.nonreg \/ allowMissing
+    /\ \A n \in DOMAIN dir.imm :
+          (lo <= n.num /\ n.num <= hi) => (n \in DOMAIN cert /\ dir.imm[n] = cert[n])
 =============================================================================
